@@ -280,6 +280,9 @@ func init() {
 			evid.Inconclusive("Trace_Limiter saw %v cases, harness recorded %d", res.Tagged["NCASES"], len(cases))
 		}
 		var bad []int
+		if len(res.Tagged["BADCASES"]) == 0 {
+			evid.Inconclusive("Trace_Limiter printed no verdict:\n%s", res.Output)
+		}
 		json.Unmarshal([]byte(res.Tagged["BADCASES"][0]), &bad)
 		for _, i := range bad {
 			c := cases[i-1]
